@@ -20,7 +20,7 @@ META = {
 
 def k_backup_path(name: str) -> str:
     """
-    pre: len(name) <= 5
+    pre: len(name) <= (PARTITION or 5)
     pre: '/' not in name
     post: _ == ''
     """
@@ -158,8 +158,8 @@ def w_main(pk: int, iname: int, cmd: int, via: int) -> str:
 
 def obligations(tier):
     return [
-        CH('K_backup_path_all_names', MOD, 'k_backup_path', timeout=120, engine='K', regime='traced',
-           encodes=['trashcli.lib.path_of_backup_copy.path_of_backup_copy'], bounds="info base name: any str without '/', len<=5"),
+        CH('K_backup_path_all_names', MOD, 'k_backup_path', timeout=120 if tier == 'quick' else 900, partitions=[5 if tier == 'quick' else 9], engine='K', regime='traced',
+           encodes=['trashcli.lib.path_of_backup_copy.path_of_backup_copy'], bounds="info base name: any str without '/', len<=%d" % (5 if tier == 'quick' else 9)),
         CH('W_payload_x_name_x_cmd_x_via', MOD, 'w_main', timeout=900, partitions=list(range(11)), engine='W', regime='selector',
            encodes=K.EMPTY_FUNCS + K.RM_FUNCS + ['RealRemoveFile2.remove_file2', 'shutil.rmtree (CPython source over the model)'],
            stubs=K.STUBS, bounds='11 payload shapes x 9 info names (incl. crafted .trashinfo, ..trashinfo, ...trashinfo) x 9 commands (incl. one refused unlink/rmdir inside the trashed tree) x 3 ways of reaching the trash dir'),
